@@ -38,14 +38,14 @@ Qed.
 Theorem rpopulate_idle samp draw mc : idle_only_if_busy (rpopulate samp draw mc).
 Proof.
   intros a ts busy id. unfold rpopulate.
-  destruct (random_values samp mc (S (S mc)) (s_space (a_osp a)) (a_tried a) (a_seed a) 0) as [[v|] seed']; [|cbn; done].
+  destruct (random_values samp draw mc (S (S mc)) (s_space (a_osp a)) (a_tried a) (a_seed a) 0) as [[v|] seed']; [|cbn; done].
   destruct (ensure_go draw _ _ v (a_k a)). cbn. done.
 Qed.
 (* random search's own STOPPED: the sampling loop gave up (every pass hit a configuration already tried) *)
 Theorem rpopulate_stopped samp draw mc a ts busy id :
   snd (fst (rpopulate samp draw mc a ts busy id)) = STOPPED →
-  ∃ seed', random_values samp mc (S (S mc)) (s_space (a_osp a)) (a_tried a) (a_seed a) 0 = (None, seed').
+  ∃ seed', random_values samp draw mc (S (S mc)) (s_space (a_osp a)) (a_tried a) (a_seed a) 0 = (None, seed').
 Proof.
-  unfold rpopulate. destruct (random_values samp mc (S (S mc)) (s_space (a_osp a)) (a_tried a) (a_seed a) 0) as [[v|] seed']; [|eauto].
+  unfold rpopulate. destruct (random_values samp draw mc (S (S mc)) (s_space (a_osp a)) (a_tried a) (a_seed a) 0) as [[v|] seed']; [|eauto].
   destruct (ensure_go draw _ _ v (a_k a)). cbn. done.
 Qed.
